@@ -41,7 +41,8 @@ def model_check(ctx, sc):
     with open(sc.file('MC_wrap.cfg'), 'w') as f:
         f.write('SPECIFICATION Spec\nCONSTANT Size = %d\nCONSTANT Buf = %d\nCONSTANT Reads <- MCReads\nINVARIANT IndInv\n'
                 'INVARIANT CacheBounded\nPROPERTY RefinesSeekable\nCHECK_DEADLOCK FALSE\n' % (SIZE_UNITS, BUF_UNITS))
-    r = tlc.run(sc.file('MC_wrap.tla'), sc.file('MC_wrap.cfg'), sc, workers=8, timeout=1200)
+    r = tlc.run(sc.file('MC_wrap.tla'), sc.file('MC_wrap.cfg'), sc, workers=8, timeout=1200, coverage=True)
+    ctx.require_actions(r, ['Read', 'Peek', 'SeekBack', 'SetMark'], 'CacheWrap')
     ctx.add_tlc('CacheWrap: bookkeeping invariant + refinement of a seekable stream', r)
     if not r.ok:
         raise core.Machinery('CacheWrap model run failed: %s %s\n%s' % (r.violated, r.errors[:2], r.out[-1500:]))
